@@ -13,7 +13,9 @@ use std::mem;
 
 verus! {
 
+//@keep-cfg statistics
 //@include _shared/registry_preamble_a.rs
+//@include _shared/statistics_items.rs
 opaque!(Channel);
 opaque!(BusListener);
 //@item core/src/message/call_function.rs struct CallFunction
@@ -30,6 +32,7 @@ impl IntoMessage for AbortFunctionCall { open spec fn min_minor() -> u32 { 16 } 
 //@include _shared/registry_preamble_b.rs
 impl Broker {
     //@include _shared/registry_inv.rs
+    //@include _shared/statistics_specs.rs
 
 
     // nothing changed; for connection `c` this is stated on the view of its caller table (the hash map was probed)
@@ -300,6 +303,7 @@ impl Broker {
                         &&& final(self).conns@[*id].calls@ =~= old(self).conns@[*id].calls@.insert(req.serial, (s, old(self).objs@[k.0].conn_id))
                     }
             },
+            final(self).stat_same(old(self)),   // no counter is touched
             // the invariant last (the frame facts above are then available), conjunct by conjunct (one query each
             // keeps the solver stable), then as a whole
             final(self).inv_objects(), final(self).inv_services(), final(self).inv_object_services(), final(self).inv_ownership(),
@@ -329,6 +333,7 @@ impl Broker {
                 && !old(self).conns@[*id].calls@.contains_key(req.serial)) ==>
                 r is Ok && final(self).only_calls_changed(old(self), old(self).skey(req.service_cookie), *id)
                 && final(self).conns@[*id].calls@.contains_key(req.serial),
+            final(self).stat_same(old(self)),   // no counter is touched
     //@end
 
     //@fn broker/src/broker.rs Broker::call_function2
@@ -342,6 +347,7 @@ impl Broker {
                 ==> r is Err && final(self).unchanged(old(self)),
             !old(self).conns@.contains_key(*id) ==> r is Ok && final(self).unchanged(old(self)),
             (old(self).conns@.contains_key(*id) && !old(self).svc_uuids@.contains_key(req.service_cookie)) ==> final(self).unchanged(old(self)),
+            final(self).stat_same(old(self)),   // no counter is touched
     //@end
 
     // the id tables (not touched by replies and aborts)
@@ -389,6 +395,7 @@ impl Broker {
                         }
                     })
             },
+            final(self).stat_same(old(self)),   // no counter is touched
             // the invariant last (the frame facts above are then available), conjunct by conjunct, then as a whole
             final(self).inv_objects(), final(self).inv_services(), final(self).inv_object_services(), final(self).inv_ownership(),
             final(self).inv_calls(), final(self).inv_callers(), final(self).inv_conns(), final(self).inv_subs(),
@@ -434,6 +441,7 @@ impl Broker {
                         }
                     }
             },
+            final(self).stat_same(old(self)),   // no counter is touched
             // the invariant last (the frame facts above are then available), conjunct by conjunct, then as a whole
             final(self).inv_objects(), final(self).inv_services(), final(self).inv_object_services(), final(self).inv_ownership(),
             final(self).inv_calls(), final(self).inv_callers(), final(self).inv_conns(), final(self).inv_subs(),
@@ -452,6 +460,7 @@ impl Broker {
             old(self).conns@.contains_key(*id) ==> (r is Err <==>
                 ProtocolVersion::lex_cmp(old(self).conns@[*id].version, ProtocolVersion::V1_16) == core::cmp::Ordering::Less),
             !old(self).conns@.contains_key(*id) ==> r is Ok,
+            final(self).stat_same(old(self)),   // no counter is touched
     //@end
 }
 
